@@ -440,6 +440,97 @@ def equivalent_paths(case, ctx):
 
 
 # ---------------------------------------------------------------------------------------------------
+# (3b) tilt elements whose public coefficients are edited between evaluations
+
+@hyp("C10", "attribute_paths", lambda tier: st.fixed_dictionaries(
+        {"kind": st.sampled_from(["dispersive1", "dispersive2", "dispersive2", "dispersive3", "tilt"]),
+         "edits": st.lists(st.tuples(st.sampled_from(["assign_dispersion", "inplace_dispersion", "assign_trace", "inplace_trace",
+                                                      "revert", "evaluate_elsewhere"]),
+                                     st.integers(0, 5), st.floats(-1.0, 1.0)), min_size=1, max_size=5),
+         "wl": st.sampled_from([5e-7, 5.5e-7, 6e-7, 6.5e-7, 7e-7, 8e-7]), "via": st.sampled_from(["shift", "field_tilt", "both"])}),
+     "a dispersive element (orders 1-3) or a Tilt plane is evaluated, its public coefficients (trace, dispersion / x, y) "
+     "are assigned or edited in place (same polynomial order), and it is evaluated again at the SAME wavelength - directly "
+     "and through the tilt list of a wavefront that passed it: every evaluation equals that of a freshly constructed "
+     "element holding the current coefficients", examples=(300, 1200), budget_s=(150, 600))
+def attribute_paths(case, ctx):
+    kind, wl = case["kind"], case["wl"]
+    trace0 = {"dispersive1": [1.5, 0.0], "dispersive2": [2.0, 0.5, 0.0], "dispersive3": [0.8, 0.0], "tilt": None}[kind]
+    disp0 = {"dispersive1": [1e-3, 6.5e-7], "dispersive2": [5e-3, 1e-4, 6.5e-7], "dispersive3": [2e-2, 4e-3, 1.2e-4, 6.5e-7],
+             "tilt": None}[kind]
+    ctx.tag("kind:" + kind, "via:" + case["via"], *sorted({"edit:" + e[0] for e in case["edits"]}))
+    ctx.nontrivial_if(any(e[0] not in ("revert", "evaluate_elsewhere") for e in case["edits"]))
+
+    def build(tr, di, xy):
+        if kind == "tilt":
+            return lentil.Tilt(x=xy[0], y=xy[1])
+        return lentil.DispersiveTilt(trace=list(tr), dispersion=list(di))
+
+    def evaluate(obj, lam):
+        out = []
+        if case["via"] in ("shift", "both"):
+            out.append(np.asarray(obj.shift(wavelength=lam, xs=0.0, ys=0.0) if kind != "tilt" else obj.shift(xs=0.0, ys=0.0, z=2.0, wavelength=lam),
+                                  dtype=float).ravel())
+        if case["via"] in ("field_tilt", "both"):
+            wf = lentil.Wavefront(lam) * lentil.Pupil(amplitude=np.ones((4, 4)), pixelscale=1e-3, focal_length=2.0) * obj
+            t = wf.data[0].tilt[-1]
+            out.append(np.asarray(t.shift(wavelength=lam, xs=0.0, ys=0.0) if kind != "tilt" else t.shift(xs=0.0, ys=0.0, z=2.0, wavelength=lam),
+                                  dtype=float).ravel())
+        return np.concatenate(out)
+
+    tr, di, xy = (list(trace0) if trace0 else None), (list(disp0) if disp0 else None), [1e-6, -2e-6]
+    with lentil_call("C10.attr.build", kind):
+        obj = build(tr, di, xy)
+        first = evaluate(obj, wl)
+        fresh0 = evaluate(build(tr, di, xy), wl)
+    if not np.allclose(first, fresh0, rtol=1e-9, atol=1e-15):
+        raise Violation("C10.attr.fresh", f"two freshly built {kind} elements evaluate differently at {wl}: {first} vs {fresh0}")
+    done = []
+    for name, k, x in case["edits"]:
+        with lentil_call("C10.attr.edit", f"{name} after [{' '.join(done)}]"):
+            if name == "revert":
+                tr, di, xy = (list(trace0) if trace0 else None), (list(disp0) if disp0 else None), [1e-6, -2e-6]
+                if kind == "tilt":
+                    obj.x, obj.y = lentil.Tilt(x=xy[0], y=xy[1]).x, lentil.Tilt(x=xy[0], y=xy[1]).y
+                else:
+                    obj.trace, obj.dispersion = np.asarray(tr, dtype=float), np.asarray(di, dtype=float)
+            elif name == "evaluate_elsewhere":
+                evaluate(obj, [5.2e-7, 7.3e-7, 6.1e-7][k % 3])
+            elif kind == "tilt":
+                xy = [xy[0] + 1e-6 * x, xy[1] - 0.5e-6 * x] if "dispersion" in name else [xy[1], xy[0] * (1 + 0.1 * x)]
+                ref = lentil.Tilt(x=xy[0], y=xy[1])
+                obj.x, obj.y = ref.x, ref.y
+            elif "dispersion" in name:
+                j = k % len(di)
+                di = list(di)
+                # small changes that keep the reference wavelength in band (a root exists on either side)
+                di[j] = di[j] * (1 + 0.05 * x) if j < len(di) - 1 else di[j] + 2e-8 * x
+                if name.startswith("assign"):
+                    obj.dispersion = np.asarray(di, dtype=float)
+                else:
+                    if not np.issubdtype(np.asarray(obj.dispersion).dtype, np.floating):
+                        obj.dispersion = np.asarray(obj.dispersion, dtype=float)
+                    obj.dispersion[j] = di[j]
+            else:
+                j = k % len(tr)
+                tr = list(tr)
+                tr[j] = tr[j] * (1 + 0.2 * x) + (0.1 * x if j == len(tr) - 1 else 0.0)
+                if name.startswith("assign"):
+                    obj.trace = np.asarray(tr, dtype=float)
+                else:
+                    if not np.issubdtype(np.asarray(obj.trace).dtype, np.floating):
+                        obj.trace = np.asarray(obj.trace, dtype=float)
+                    obj.trace[j] = tr[j]
+        done.append(name)
+        with lentil_call("C10.attr.evaluate", f"evaluation at {wl} after [{' '.join(done)}]"):
+            got = evaluate(obj, wl)
+            want = evaluate(build(tr, di, xy), wl)
+        if got.shape != want.shape or not np.allclose(got, want, rtol=1e-7, atol=1e-13):
+            raise Violation("C10.attr.stale", f"{kind} evaluated at {wl} after [{' '.join(done)}] gives {got.tolist()}, a freshly built "
+                                              f"element with the current coefficients (trace {tr}, dispersion {di}, x/y {xy}) gives "
+                                              f"{want.tolist()}")
+
+
+# ---------------------------------------------------------------------------------------------------
 # (4) objects derived from a plane are independent of later in-place work on it (and the other way round)
 
 @hyp("C10", "derived_objects", lambda tier: st.fixed_dictionaries(
